@@ -75,8 +75,9 @@ type LazyUni struct {
 type LabelCode struct {
 	Fn  string `json:"fn"`
 	K   string `json:"k"`
-	Var string `json:"var"`
-	Dev string `json:"dev"`
+	Var string   `json:"var"`
+	Dev string   `json:"dev"`
+	Src []string `json:"src"`
 }
 
 // Export is the "@@UNI" line of MCLazyBind.
@@ -108,38 +109,33 @@ func NewLazyRoot(w *World) (*ggql.Root, error) {
 }
 
 // CheckWorld verifies the facts about the real root that the universe states
-// and the model relies on: the scan order is Root.types order (by name).
+// and the model relies on: the scan order is the order of the object types in
+// Root.types (getReflectType and implementor walk that list).
 func CheckWorld(w *World) error {
-	if !sort.StringsAreSorted(w.Scan) {
-		return fmt.Errorf("scan order %v is not the order of Root.types (sorted by name)", w.Scan)
-	}
 	root, err := NewLazyRoot(w)
 	if err != nil {
 		return err
 	}
-	for _, o := range w.Scan {
-		if _, ok := root.GetType(o).(*ggql.Object); !ok {
-			return fmt.Errorf("%s is not an object type of the schema", o)
+	var real []string
+	for _, t := range root.Types() {
+		if o, ok := t.(*ggql.Object); ok && StrSet(w.Scan).Has(o.Name()) {
+			real = append(real, o.Name())
 		}
+	}
+	if strings.Join(real, ",") != strings.Join(w.Scan, ",") {
+		return fmt.Errorf("scan order %v is not the order of Root.types %v", w.Scan, real)
 	}
 	return nil
 }
 
 // ---------------------------------------------------------------- U-exec
 
-// ExecWorld realises U-exec with the reflected Go types of gq/refluni.  All
-// node objects are built up front; ReflResolve only reads.
+// ExecWorld realises U-exec with the reflected Go types of gq/refluni, with
+// Resolver objects or behind an AnyResolver.  All node objects are built up
+// front; ReflResolve only reads.
 type ExecWorld struct {
 	U     *gq.Universe
 	nodes map[string]interface{}
-}
-
-func newExecWorld(u *gq.Universe) *ExecWorld {
-	w := &ExecWorld{U: u, nodes: map[string]interface{}{}}
-	for id, tn := range u.NodeType {
-		w.nodes[id] = refluni.New(w, tn, id)
-	}
-	return w
 }
 
 // ReflResolve implements refluni.Backend without any shared mutable state.
@@ -204,22 +200,85 @@ func (w *ExecWorld) toGo(v gq.Value) interface{} {
 	return nil
 }
 
-// Binding modes of the U-exec roots (how the Go types A, B, C become known).
+// Kinds of U-exec roots: the reflection strategy with the three ways the Go
+// types A, B, C become known, and the two other resolver strategies.
 const (
 	BindByName = iota
 	BindRegister
 	BindGoDir
-	NumBindings
+	StratIface // every node implements ggql.Resolver
+	StratAny   // untyped nodes behind Root.AnyResolver
+	NumRootKinds
 )
 
-var BindingNames = []string{"byname", "register", "godir"}
+var RootKindNames = []string{"refl-byname", "refl-register", "refl-godir", "iface", "any"}
+
+// resNode is a node realised as a ggql.Resolver; anyNode one behind the root's AnyResolver.
+type resNode struct {
+	w  *ExecWorld
+	id string
+}
+
+func (n *resNode) Resolve(field *ggql.Field, args map[string]interface{}) (interface{}, error) {
+	if n.id == "$root" {
+		return n.w.ReflResolve("$root", field.Name, nil)
+	}
+	return n.w.ReflResolve(n.id, field.Name, args)
+}
+
+type anyNode struct{ id string }
+
+type anyRes struct{ w *ExecWorld }
+
+func (r *anyRes) Resolve(obj interface{}, field *ggql.Field, args map[string]interface{}) (interface{}, error) {
+	n, ok := obj.(*anyNode)
+	if !ok {
+		return nil, fmt.Errorf("AnyResolver asked to resolve %s on a %T", field.Name, obj)
+	}
+	if n.id == "$root" {
+		return r.w.ReflResolve("$root", field.Name, nil)
+	}
+	return r.w.ReflResolve(n.id, field.Name, args)
+}
+
+func (r *anyRes) Len(list interface{}) int {
+	if l, ok := list.([]interface{}); ok {
+		return len(l)
+	}
+	return 0
+}
+
+func (r *anyRes) Nth(list interface{}, i int) (interface{}, error) {
+	if l, ok := list.([]interface{}); ok && 0 <= i && i < len(l) {
+		return l[i], nil
+	}
+	return nil, fmt.Errorf("bad list access")
+}
 
 // NewExecRoot builds a cold root over U-exec.
-func NewExecRoot(u *gq.Universe, binding int) (*ggql.Root, error) {
-	w := newExecWorld(u)
-	root := ggql.NewRoot(&refluni.Schema{B: w})
+func NewExecRoot(u *gq.Universe, kind int) (*ggql.Root, error) {
+	w := &ExecWorld{U: u, nodes: map[string]interface{}{}}
+	var root *ggql.Root
+	switch kind {
+	case StratIface:
+		for id := range u.NodeType {
+			w.nodes[id] = &resNode{w: w, id: id}
+		}
+		root = ggql.NewRoot(&resNode{w: w, id: "$root"})
+	case StratAny:
+		for id := range u.NodeType {
+			w.nodes[id] = &anyNode{id: id}
+		}
+		root = ggql.NewRoot(&anyNode{id: "$root"})
+		root.AnyResolver = &anyRes{w: w}
+	default:
+		for id, tn := range u.NodeType {
+			w.nodes[id] = refluni.New(w, tn, id)
+		}
+		root = ggql.NewRoot(&refluni.Schema{B: w})
+	}
 	sdl := u.SDL()
-	if binding == BindGoDir {
+	if kind == BindGoDir {
 		for _, tn := range []string{"A", "B", "C"} {
 			was := sdl
 			sdl = strings.Replace(sdl, "type "+tn+" implements Named {", "type "+tn+" implements Named @go(type: \"refluni."+tn+"\") {", 1)
@@ -231,7 +290,7 @@ func NewExecRoot(u *gq.Universe, binding int) (*ggql.Root, error) {
 	if err := root.ParseString(sdl); err != nil {
 		return nil, fmt.Errorf("U-exec schema rejected: %w\n%s", err, sdl)
 	}
-	if binding == BindRegister {
+	if kind == BindRegister {
 		for _, tn := range []string{"A", "B", "C", "Query", "Mutation"} {
 			if _, ok := u.Types[tn]; ok {
 				if err := root.RegisterType(refluni.New(w, tn, ""), tn); err != nil {
